@@ -10,16 +10,21 @@ import os
 from nvlib import engine as E
 from nvlib.check import Prop
 
-HEAD = ['#include "/include/vcommon.h"', 'string oid = "?";', 'int vsel; GLOBALS',
+HEAD = ['#include "/include/vcommon.h"', 'string oid = "?";', 'int vsel; int mflag; GLOBALS',
         'void create () { seteuid (getuid ()); CREATE }',
         'void set_oid (string s) { oid = s; "/vreg"->reg (s, this_object ()); }',
         'void cb (string s) { VL ("cb " + s); }',
         'int add3 (int a, int b, int c) { return a + b + c; }']
 DECL = "mixed e; object p0; mixed a; string s;"
+# every prep(): a copy of the master left loaded by a reload whose create() failed is removed; the spare objects are refilled
+MPREP = 'p0 = find_object ("/c05/master"); if (p0 && p0 != master ()) destruct (p0); master ()->refill (6);'
+
 # entry points of the backend cycles (`injectbe`): the driver calls these itself
 BE_WRAPPERS = ["void heart_beat () { run (); }", "void reset () { run (); }", "int clean_up (int inh) { run (); return 1; }"]
-BE_OPS = {"cmd": "(becmd u1 t %s)", "hb": "(behb t %s)", "reset": "(bereset t %s)", "cleanup": "(becleanup t %s)"}
-BE_PREP = {"cmd": "", "hb": "set_heart_beat (1);", "reset": "", "cleanup": ""}
+BE_OPS = {"cmd": "(becmd u1 t %s)", "hb": "(behb t %s)", "hbc": "(behbc t %s)", "reset": "(bereset t %s)", "cleanup": "(becleanup t %s)"}
+# (hbc: the heart beat object has commands enabled, so call_heart_beat() makes it the command giver for its heart beat)
+BE_PREP = {"cmd": "", "hb": "set_heart_beat (1);", "hbc": "set_heart_beat (1); enable_commands ();", "reset": "", "cleanup": ""}
+BE_INJECT = {"cmd": "cmd", "hb": "hb", "hbc": "hb", "reset": "reset", "cleanup": "cleanup"}
 
 
 class Builder:
@@ -36,6 +41,10 @@ class Builder:
         self.budget = budget
         self.kinds = {}
         self.in_rep = 0
+        self.plain = 0           # > 0: only say / local call / catch / raise / throw nodes
+        self.msg_used = False    # message() -> receive_message apply in t (one per program, fixed entry point)
+        self.tell_used = False   # tell_object() -> catch_tell apply in t
+        self.vital_used = False  # one destruct of a vital object per program (fixed entry point mcreate)
         self.verb_used = False  # one command verb per program (fixed entry point gobody)
         self.nf_used = False  # one notify_fail() callback per program (fixed entry point nfbody)
         self.in_safe = 0     # sprintf() refuses to run inside the object_name() master call
@@ -83,13 +92,19 @@ class Builder:
         rng = self.rng
         main = fctx == "t"
         kinds = [("say", 6), ("lcall", 5), ("tmpcall", 3), ("ocall", 4), ("surplus", 2), ("fplocal", 3), ("functional", 3),
-                 ("efunp", 2), ("mapfp", 3), ("mapstr", 2), ("filterfp", 2), ("sortfp", 2), ("unique", 2), ("mapmap", 2), ("filtermap", 1), ("uniquemap", 2),
+                 ("efunp", 2), ("mapfp", 3), ("mapstr", 2), ("filterfp", 2), ("sortfp", 2), ("unique", 2), ("mapmap", 2), ("filtermap", 1), ("uniquemap", 2), ("mapstring", 2), ("implodefp", 2),
+                 ("message", 2 if main and not self.msg_used and not self.no_cg else 0),
+                 ("selfdestruct", 2 if main and not self.in_rep else 0),
                  ("catch", 7), ("raise", 3), ("throw", 2), ("safe", 3 if main and not self.in_safe else 0), ("setcg", 2 if main and self.use_setcg and not self.no_cg else 0),
                  ("install", 2 if main and not self.use_setcg else 0), ("installbad", 2 if main and not self.use_setcg else 0), ("load", 2 if main and not self.in_rep else 0),
                  ("clone", 2 if main else 0),
+                 ("vitalmaster", 3 if main and not self.vital_used and not self.in_rep and not self.in_safe else 0),
+                 ("vitalnoeuid", 2 if main and not self.in_rep else 0),
                  ("verbcmd", 3 if main and not self.no_cg and not self.verb_used and not self.in_rep else 0),
                  ("notifyfail", 3 if main and not self.no_cg and not self.nf_used and not self.in_rep else 0),
                  ("arity", 5), ("inithook", 3 if main and not self.in_rep else 0), ("dhook", 3 if main and not self.in_rep else 0)]
+        if self.plain:
+            kinds = [(n, w) for n, w in kinds if n in ("say", "lcall", "tmpcall", "catch", "raise", "throw")]
         k = rng.weighted(kinds)
         self.count(k)
         t = "t"
@@ -165,6 +180,47 @@ class Builder:
             f = self.fn(fctx, b, params="int x, int y", ret="int", tail="return x;")
             stmts.append("a = %s (([ 1 : 2 ]), (: %s :));" % ("map" if k == "mapmap" else "filter", f))
             ops.append("(tmp 3 (cb fplocal %s 2 2 %s))" % (t, " ".join(o)))
+        elif k == "mapstring":
+            # map over a string (lib/lpc/array.c map_string): one callback per character, the working copy is a C local
+            self.in_rep += 1
+            b, o = self.sub(fctx, depth)
+            self.in_rep -= 1
+            f = self.fn(fctx, b, params="int x", ret="int", tail="return x;")
+            stmts.append('s = map ("ab", (: %s :));' % f)
+            one = "(cb fplocal %s 1 1 %s)" % (t, " ".join(o))
+            ops.append("(tmp 3 %s %s)" % (one, one))
+        elif k == "implodefp":
+            # implode with a function (implode_array): f (accumulator, element), twice for three elements
+            self.in_rep += 1
+            b, o = self.sub(fctx, depth)
+            self.in_rep -= 1
+            f = self.fn(fctx, b, params="int x, int y", ret="int", tail="return x + y;")
+            stmts.append("a = implode (({ 1, 2, 3 }), (: %s :));" % f)
+            one = "(cb fplocal %s 2 2 %s)" % (t, " ".join(o))
+            ops.append("(tmp 3 %s %s)" % (one, one))
+        elif k == "message":
+            # message() -> do_message -> apply receive_message in the interactive user, which calls the generated body
+            self.msg_used = True
+            b, o = self.sub(fctx, depth)
+            f = self.fn(fctx, b)
+            self.files[fctx]["fns"].append("void msgbody () { %s (); }" % f)
+            stmts.append('message ("c", "hello", find_object ("/c05/user"));')
+            ops.append("(tmp 3 (cb other u1 2 2 (call other %s 0 0 (call local %s 0 0 %s))))" % (t, t, " ".join(o)))
+        elif k == "selfdestruct":
+            # an object destructs itself and goes on executing: the frames that are unwound (or returned through) belong to a
+            # destructed object
+            i = self.fresh()
+            name = "S%d" % i
+            self.files[name] = {"fns": [], "vname": [], "create": "", "extra": []}
+            self.plain += 1      # (function pointers of a destructed owner are refused by the driver: plain calls only)
+            b, o = self.sub(name, depth)
+            self.plain -= 1
+            f = self.fn(name, b)
+            path = "/c05/gen/%s" % name
+            self.files[name]["extra"] = ["void go () { destruct (this_object ()); %s (); }" % f]
+            self.prep.append('if (p0 = find_object ("%s")) destruct (p0); load_object ("%s");' % (path, path))
+            stmts.append('"%s"->go ();' % path)
+            ops.append("(call other %s 0 0 (call local %s 0 0 %s))" % (t, t, " ".join(o)))
         elif k == "uniquemap":
             # unique_mapping (lib/lpc/mapping.c): T_ERROR_HANDLER slot held across the callback
             b, o = self.sub(fctx, depth)
@@ -245,6 +301,31 @@ class Builder:
             else:
                 stmts.append("evaluate ((: %s :)%s);" % (name, (", " + args) if args else ""))
                 ops.append("(call fplocal %s %d %d %s)" % (t, passed, declared, body_ops))
+        elif k == "vitalmaster":
+            # destruct(master()): destruct_object() pushes the fix_object_names error-handler slot, records both vital names,
+            # blanks the master's name and reloads the master file; create() of the new copy runs a generated body
+            self.vital_used = True
+            b, o = self.sub(fctx, depth)
+            f = self.fn(fctx, b)
+            self.files[fctx]["fns"].append("void mcreate () { if (mflag) { mflag = 0; %s (); } }" % f)
+            stmts.append("mflag = 1; destruct (master ());")
+            ops.append("(tmp 1 (vital master (load (call other master 0 0 (call other %s 0 0 (call local %s 0 0 %s)))) (call other master 0 0)))"
+                       % (t, t, " ".join(o)))
+        elif k == "vitalnoeuid":
+            # destruct of a vital object asked for by an object without an effective uid: the reload is refused with an
+            # error raised by load_object() while the slot is on the stack and the name is blank
+            i = self.fresh()
+            name = "V%d" % i
+            which = rng.choice(["master", "simul"])
+            self.files[name] = {"fns": [], "vname": [], "create": "", "extra": [
+                "void go () { destruct (%s); }" % ("master ()" if which == "master" else 'find_object ("/simul_efun")')]}
+            path = "/c05/gen/%s" % name
+            self.prep.append('if (p0 = find_object ("%s")) destruct (p0); load_object ("%s");' % (path, path))
+            stmts.append('"%s"->go ();' % path)
+            # (this driver refuses to destruct the simul_efun object while a master exists, before anything is touched)
+            ops.append(("(call other %s 0 0 (tmp 1 (vital master (craise *Can't load objects when no effective user.))))" % t) if which == "master"
+                       else ("(call other %s 0 0 (tmp 1 (craise *Cannot destruct simul_efun_object while master_object exists.)))" % t))
+            return True
         elif k == "verbcmd":
             # command("go"): user_parser() sets last_verb around the call of the verb function (add_action of /c05/user)
             self.verb_used = True
@@ -305,8 +386,22 @@ class Builder:
         lines += f["fns"]
         if name == "t":
             lines += BE_WRAPPERS
-            lines.append('void prep () { object p0; vsel = 0; "/c05/master"->refill (6); %s }' % " ".join(self.prep))
+            lines.append('void prep () { object p0; vsel = 0; mflag = 0; ' + MPREP + ' %s }' % " ".join(self.prep))
         return "\n".join(lines) + "\n"
+
+
+def _flex(lit):
+    """a literal C fragment as a regex that does not care about spacing (the source is GNU style, but a reformatting is harmless)"""
+    import re
+    parts = re.findall(r"[A-Za-z_0-9]+|\s+|.", lit)
+    return "".join(r"\s*" if p.isspace() else (r"\b" + re.escape(p) + r"\b" if re.match(r"\w", p) else r"\s*" + re.escape(p) + r"\s*") for p in parts)
+
+
+def pos(text, lit, start=0):
+    """like text.find(lit, start), insensitive to spacing"""
+    import re
+    m = re.compile(_flex(lit)).search(text, start)
+    return m.start() if m else -1
 
 
 def hexs(s):
@@ -328,8 +423,8 @@ def case_from(cid, files, run_src_ops, extra_head=(), tail=(), inject="inject t 
 
 
 def build_case(rng, cid, budget):
-    be = rng.choice(["cmd", "hb", "reset", "cleanup"]) if rng.chance(1, 5) else None
-    b = Builder(rng, cid, budget, no_cg=be in ("hb", "reset", "cleanup"))
+    be = rng.choice(["cmd", "hb", "hbc", "reset", "cleanup"]) if rng.chance(1, 5) else None
+    b = Builder(rng, cid, budget, no_cg=be in ("hb", "hbc", "reset", "cleanup"))
     stmts, ops = b.block("t", 0, n=rng.range(1, 4))
     b.files["t"]["fns"].append("mixed run () { %s %s return 1; }" % (DECL, " ".join(stmts)))
     if be:
@@ -338,7 +433,7 @@ def build_case(rng, cid, budget):
         b.prep.append(BE_PREP[be])
         b.kinds["backend_" + be] = 1
         files = {name: b.source(name) for name in b.files}
-        c = case_from(cid, files, BE_OPS[be] % " ".join(ops), extra_head=["setcg 0"], inject="injectbe " + be)
+        c = case_from(cid, files, BE_OPS[be] % " ".join(ops), extra_head=["setcg 0"], inject="injectbe " + BE_INJECT[be])
         if rng.chance(1, 4):
             c.lines.insert(0, "maxdepth %d" % rng.range(7, 12))
             b.kinds["lowdepth"] = 1
@@ -372,7 +467,7 @@ def build_case(rng, cid, budget):
 def fixed_case(cid, run_body, ops, fns=(), prep="", tail=(), inject="inject t run", vname="", extra_files=None, extra_head=()):
     src = "\n".join([l.replace("CREATE", "").replace("GLOBALS", "") for l in HEAD] + ["mixed run ();"] + BE_WRAPPERS + list(fns) +
                     ['string vname () { %s return "n"; }' % vname,
-                     'void prep () { object p0; vsel = 0; "/c05/master"->refill (6); %s }' % prep,
+                     'void prep () { object p0; vsel = 0; mflag = 0; ' + MPREP + ' %s }' % prep,
                      "mixed run () { %s %s return 1; }" % (DECL, run_body)]) + "\n"
     files = {"t": src}
     files.update(extra_files or {})
@@ -451,15 +546,17 @@ CATCHSTMT = 'p0 = this_player (); e = catch (%s); VL ("catch " + e + (e && this_
 class C05(Prop):
     id = "C05"
     title = "after any LPC error the machine state is as before the failed call"
-    lean_modules = ["NV.C05.Exec", "NV.C05.Guards", "NV.C05.Tie", "NV.C05.Props", "NV.C05.Backend", "NV.C05.Witness"]
+    lean_modules = ["NV.C05.Exec", "NV.C05.Guards", "NV.C05.Tie", "NV.C05.Props", "NV.C05.Backend", "NV.C05.Verb", "NV.C05.Witness"]
     theorems = ["NV.C05.tie_save_context", "NV.C05.tie_safe_recovery_point", "NV.C05.tie_restore_offset",
                 "NV.C05.tie_depth_tests", "NV.C05.tie_statement_shapes", "NV.C05.tie_frame_codes",
                 "NV.C05.tie_context_fields_saved", "NV.C05.tie_every_field_saved_is_restored", "NV.C05.tie_context_globals",
                 "NV.C05.tie_frame_registers", "NV.C05.tie_frame_saved_is_restored", "NV.C05.tie_all_globals_classified",
                 "NV.C05.tie_classes_match_source", "NV.C05.tie_command_giver_stack", "NV.C05.tie_callback_handlers",
-                "NV.C05.tie_backend_shapes", "NV.C05.tie_catch_value_order", "NV.C05.tie_handler_flag", "NV.C05.tie_handler_limit_state", "NV.C05.tie_hook_globals_apart", "NV.C05.raise_sets_catch_value_after_handler",
+                "NV.C05.tie_backend_shapes", "NV.C05.tie_catch_value_order", "NV.C05.tie_handler_flag", "NV.C05.tie_error_handler_slots", "NV.C05.tie_vital_destruct_order", "NV.C05.tie_error_handlers_are_leaves",
+                "NV.C05.vital_records_before_blanking", "NV.C05.vital_nested_refused", "NV.C05.popN_fixNames", "NV.C05.vitalFinish_good", "NV.C05.tie_handler_limit_state", "NV.C05.tie_hook_globals_apart", "NV.C05.raise_sets_catch_value_after_handler",
                 "NV.C05.driver_restores", "NV.C05.model_satisfies_spec_driver",
-                "NV.C05.backend_cycle_restores", "NV.C05.model_satisfies_spec_backend", "NV.C05.restoreContext_verb",
+                "NV.C05.backend_cycle_restores", "NV.C05.model_satisfies_spec_backend", "NV.C05.restoreContext_verb", "NV.C05.restoreContext_runs_fixNames", "NV.C05.exec_vk", "NV.C05.execCore_vk", "NV.C05.driver_keeps_last_verb",
+                "NV.C05.top_keeps_last_verb", "NV.C05.catchFinish_vk",
                 "NV.C05.saveContext_verb", "NV.C05.judgeObs_nil_of_core", "NV.C05.hbOffStep_spec", "NV.C05.raiseInner_uncaught_switches_heart_beat_off", "NV.C05.hbOffStep_same", "NV.C05.verbFinish_good", "NV.C05.hbFinish_good",
                 "NV.C05.safeFpFinish_total", "NV.C05.safeApply_all_arities", "NV.C05.call_all_arities", "NV.C05.safeFinish_total",
                 "NV.C05.saveContext_refuses_iff", "NV.C05.catch_refused", "NV.C05.safeApply_refused",
@@ -479,7 +576,7 @@ class C05(Prop):
                         "NV.C05.throw_does_not_reset_guards", "NV.C05.error_resets_guards_example",
                         "NV.C05.caught_throw_in_load_restores_guards", "NV.C05.catch_in_create_keeps_depth",
                         "NV.C05.caught_throw_in_dhook_restores_guards", "NV.C05.catch_at_limit_keeps_chain",
-                        "NV.C05.safe_apply_at_limit_keeps_chain", "NV.C05.heart_beat_error_switches_it_off",
+                        "NV.C05.safe_apply_at_limit_keeps_chain", "NV.C05.heart_beat_error_switches_it_off", "NV.C05.failed_master_reload_restores_name", "NV.C05.nested_master_destruct_keeps_name",
                         "NV.C05.safe_apply_error_in_heart_beat_switches_it_off"]
     consts = [("frameFunction", "FRAME_FUNCTION"), ("frameFunp", "FRAME_FUNP"), ("frameCatch", "FRAME_CATCH"),
               ("frameFake", "FRAME_FAKE"), ("frameMask", "FRAME_MASK"),
@@ -498,7 +595,7 @@ class C05(Prop):
                  "inside one cycle of the real backend(), model/implementation correspondence on outcome sets, register snapshots and control-stack shapes")
     level_text = ("Lean 4 theorems about an executable model of save_context/restore_context/pop_context, "
                   "push/pop_control_stack, do_catch, safe_apply, safe_call_function_pointer, error_handler (guards, heart-beat switch-off, catch_value), "
-                  "the T_ERROR_HANDLER slots, the call_out sweep and one cycle of backend() (command, heart beat, reset/clean_up sweep), for all op "
+                  "the T_ERROR_HANDLER slots incl. the one of destruct_object that restores the names of the vital objects, the call_out sweep and one cycle of backend() (command, heart beat, reset/clean_up sweep), for all op "
                   "trees of any nesting depth and every position of the fault; tied to the source by regenerated frame / "
                   "error-state / origin constants, statement shapes, the saved/restored field and register lists and a classification of every "
                   "file-scope global of the interpreter core, and by running generated LPC programs with a fault injected at every "
@@ -514,7 +611,8 @@ class C05(Prop):
             "call_other incl. surplus arguments, function pointers of every kind, map/filter/sort_array/unique_array "
             "callbacks, catch in catch, error()/throw(), safe applies via sprintf(\"%O\"), create() in load_object/new, "
             "input_to, enable_commands, init() hooks via move_object, move_or_destruct() hooks via destruct, command verbs via command(), "
-            "notify_fail() functions, map/filter over mappings, unique_mapping, the program as a callback of the real call_out() sweep and as one "
+            "notify_fail() functions, map/filter over mappings, unique_mapping, map over strings, implode with a function, message(), self-destructing "
+            "objects, destruct of the master with a reload that fails (refused / error, throw or injected fault in create() of the new copy / nested),  the program as a callback of the real call_out() sweep and as one "
             "cycle of the real backend() (a user command, a heart beat, reset(), clean_up()); master error handlers that run catch()/throw()/callbacks; arity -3..+3 through call_other / function pointers / the driver's "
             "safe_apply and safe_call_function_pointer with 0 or 4 locals; every frame kind at exactly limit-2 / limit-1 / limit "
             "frames of a lowered MaxCallDepth); every program is run once per instruction with a fault injected there; a case "
@@ -523,6 +621,10 @@ class C05(Prop):
                    "'every uncaught first-level error leaves current_heart_beat cleared' is modelled, compared and witnessed, not proved for all programs",
                    "C locals of efuns that are live across a longjmp: inventoried by the translator (41 call-back sites, 4 with an error-handler slot), observed via ASan on 9 efuns, not proved",
                    "value-stack depths inside efuns are approximated (only the depth after recovery is observed)",
+                   "the oracle clause for last_verb (qv) is proved for evaluations started outside a command (exec_vk: kept or cleared; driver_keeps_last_verb, top_keeps_last_verb); the probe / heart-beat / catch-value clauses are checked on traces",
+                   "'names of the vital objects after = before' is an oracle clause and compared on every trace; proved at state level (restoreContext_runs_fixNames), not through the induction over all programs",
+                   "the simul_efun branch of destruct_object's vital block (refused from LPC while a master exists)",
+                   "call-back sites not driven: f_objects, object_present, fixed master applies (valid_read / valid_seteuid / creator_file run but have no generated body), print_prompt, snoop, logon, ed, parse_command, virtual objects",
                    "preload_objects, console-mode resume, do_slow_shutdown recovery points; varargs callees; get_char"]
 
     # ---- translator (T4-style): statement shapes / orders of the anchor functions, regenerated on every run ----
@@ -545,7 +647,13 @@ class C05(Prop):
                     if depth == 0:
                         break
                 j += 1
-            return re.sub(r"/\*.*?\*/", "", src[i:j + 1], flags=re.S)
+            text = re.sub(r"/\*.*?\*/", "", src[i:j + 1], flags=re.S)
+            # the names of the context parameter / local are the author's choice: normalise them to `econ`
+            header = src[m.start():i]
+            for nm in re.findall(r"error_context_t\s*\*\s*(\w+)", header) + re.findall(r"\berror_context_t\s+(\w+)\s*;", text):
+                if nm != "econ":
+                    text = re.sub(r"\b%s\b" % re.escape(nm), "econ", text)
+            return text
 
         def need(site, cond, what):
             if not cond:
@@ -566,10 +674,10 @@ class C05(Prop):
         out.append("/-- save_context: `econ->save_sp = %s;` -/\ndef saveContextSaveSp (sp : Nat) : Nat := %s" % (m_sp.group(1), expr(m_sp.group(1))))
         out.append("/-- save_context: `econ->save_csp = %s;` -/\ndef saveContextSaveCsp (csp : Nat) : Nat := %s" % (m_csp.group(1), expr(m_csp.group(1))))
         test = re.search(r"if\s*\(csp\s*==\s*&control_stack\[CONFIG_INT\s*\(__MAX_CALL_DEPTH__\)\s*-\s*(\d+)\]\)", sc)
-        link = sc.find("current_error_context = econ")
+        link = pos(sc, "current_error_context = econ")
         need("save_context", test and link >= 0, "depth test / linking")
         out.append("/-- save_context: the frame index of the depth test is MaxCallDepth - this -/\ndef saveContextDepthOffset : Nat := %s" % test.group(1))
-        ret0 = sc.find("return 0", test.start())
+        ret0 = pos(sc, "return 0", test.start())
         out.append("/-- save_context: the refusal (`return 0`) comes before the context is linked into the chain -/\n"
                    "def saveContextRefusesBeforeLinking : Bool := %s" % ("true" if 0 <= ret0 < link else "false"))
         out.append("/-- save_context stores the two guards (save_object_limits) and command_giver -/\ndef saveContextSavesGuards : Bool := %s"
@@ -591,8 +699,8 @@ class C05(Prop):
         out.append("/-- pop_context relinks the chain and clears the error state -/\ndef popContextRelinksAndClears : Bool := %s"
                    % ("true" if re.search(r"current_error_context\s*=\s*econ->save_context", pc) and "clear_error_state" in pc else "false"))
         eh = body("src/error_context.c", "error_handler")
-        first_if = eh.find("if (current_error_context")
-        r1, r2 = eh.find("reset_destruct_object_limits"), eh.find("reset_load_object_limits")
+        first_if = pos(eh, "if (current_error_context")
+        r1, r2 = pos(eh, "reset_destruct_object_limits"), pos(eh, "reset_load_object_limits")
         need("error_handler", first_if >= 0, "catch branch")
         out.append("/-- error_handler: both guard resets precede the catch branch -/\ndef errorHandlerResetsGuardsFirst : Bool := %s"
                    % ("true" if 0 <= r1 < first_if and 0 <= r2 < first_if else "false"))
@@ -601,20 +709,35 @@ class C05(Prop):
             m = re.search(r"econ\.save_sp\s*=\s*([^;]+);", b)
             rhs = m.group(1) if m else "sp"
             out.append("/-- %s: recovery point `econ.save_sp = %s` -/\ndef %sSaveSp (sp numArg : Nat) : Nat := %s" % (fn, rhs, lean, expr(rhs)))
-            after = b[b.find("restore_context"):] if "restore_context" in b else ""
+            after = b[pos(b, "restore_context"):] if "restore_context" in b else ""
             out.append("/-- %s: no `pop_n_elems (num_arg)` after restore_context -/\ndef %sPopsArgsAfterRestore : Bool := %s"
                        % (fn, lean, "true" if re.search(r"pop_n_elems\s*\(num_arg\)", after) else "false"))
         dc = body("src/frame.c", "do_catch")
         out.append("/-- do_catch: the limit bit is set again after pop_context, before the re-raise -/\ndef catchKeepsLimitBit : Bool := %s"
                    % ("true" if re.search(r"pop_context\s*\(&econ\);\s*set_error_state\s*\(ES_STACK_FULL\)", dc) else "false"))
         out.append("/-- do_catch: save_context, then push_control_stack (FRAME_CATCH), then setjmp -/\ndef catchPushesFrameRightAfterSave : Bool := %s"
-                   % ("true" if 0 <= dc.find("save_context") < dc.find("push_control_stack (FRAME_CATCH)") < dc.find("setjmp") else "false"))
+                   % ("true" if 0 <= pos(dc, "save_context") < pos(dc, "push_control_stack (FRAME_CATCH)") < pos(dc, "setjmp") else "false"))
         pcs = body("src/frame.c", "push_control_stack")
         t2 = re.search(r"CONFIG_INT\s*\(__MAX_CALL_DEPTH__\)\s*-\s*(\d+)", pcs)
         need("push_control_stack", t2, "depth test")
         out.append("/-- push_control_stack: the frame index of the depth test is MaxCallDepth - this -/\ndef pushDepthOffset : Nat := %s" % t2.group(1))
         out += self.gen_globals(bdir, body, need)
-        return "\n".join(out) + "\n"
+        text = "\n".join(out) + "\n"
+        # name the site of every regenerated statement shape that is not what the model mirrors: the obligation in Tie.lean
+        # will fail, and the report should say WHICH C statement moved (a harmless rewrite and a defect look the same here;
+        # the search stage that follows decides)
+        expected_false = ("safeApplyPopsArgsAfterRestore", "safeFpPopsArgsAfterRestore")
+        self.shape_notes = []
+        for mm in re.finditer(r"/-- ((?:(?!/--).)*?) -/\ndef (\w+) : Bool := (true|false)", text, re.S):
+            doc, name, val = mm.group(1), mm.group(2), mm.group(3)
+            if (val == "false") != (name in expected_false):
+                self.shape_notes.append("%s = %s: %s" % (name, val, " ".join(doc.split())))
+        for mm in re.finditer(r"/-- ((?:(?!/--).)*?) -/\ndef (\w+) : List String := \[(.+)\]", text):
+            if mm.group(2) in ("cgStackUnsafeCalls", "errorHandlersThatCallBack"):
+                self.shape_notes.append("%s = [%s]: %s" % (mm.group(2), mm.group(3), " ".join(mm.group(1).split())))
+        for n in self.shape_notes:
+            E.log("C05 translator: source no longer has the shape the model mirrors - " + n)
+        return text
 
     # ---- translator: which global variables does an error unwinding have to put back? -----------------------------
     CORE_OBJECTS = ["interpret", "frame", "stack", "error_context", "apply", "simulate"]
@@ -623,6 +746,7 @@ class C05(Prop):
     def gen_globals(self, bdir, body, need):
         import re
         import subprocess
+        from nvlib import extract as X
 
         def lst(xs):
             return "[" + ", ".join('"%s"' % x for x in xs) + "]"
@@ -714,7 +838,7 @@ class C05(Prop):
                         continue
                     t = re.sub(r"/\*.*?\*/", "", open(os.path.join(dp, f), errors="replace").read(), flags=re.S)
                     for mm in re.finditer(r"\bsave_command_giver\s*\([^;{]*\)\s*;", t):
-                        end = t.find("restore_command_giver", mm.end())
+                        end = pos(t, "restore_command_giver", mm.end())
                         seg = t[mm.end():end if end >= 0 else mm.end() + 2000]
                         users += 1
                         for cb in re.finditer(self.CALLBACKS, seg):
@@ -726,9 +850,10 @@ class C05(Prop):
                    "def cgStackUnsafeCalls : List String := %s" % lst(sorted(set(unsafe))))
         # (5) error_handler: the heart beat is switched off on the uncaught path only, after the mudlib handler
         eh = body("src/error_context.c", "error_handler")
-        hb = eh.find("if (current_heart_beat)")
-        catch_end = eh.find("if (in_error)")
-        last_handler = eh.rfind("mudlib_error_handler (err, 0)")
+        hb = pos(eh, "if (current_heart_beat)")
+        catch_end = pos(eh, "if (in_error)")
+        mh0 = list(re.finditer(r"mudlib_error_handler\s*\(\w+,\s*0\)", eh))
+        last_handler = mh0[-1].start() if mh0 else -1
         out.append("/-- error_handler: `if (current_heart_beat) set_heart_beat (…, 0)` comes after the catch branch, after the in_error "
                    "branch and after the uncaught mudlib handler call, and clears current_heart_beat -/\n"
                    "def errorHandlerHeartBeatOffLast : Bool := %s"
@@ -736,10 +861,11 @@ class C05(Prop):
                       "set_heart_beat (current_heart_beat, 0)" in eh[hb:] else "false"))
         # (5b) error_handler, caught branch: catch_value (a global that every catch() executed by the master's handler
         #      overwrites) is assigned AFTER mudlib_error_handler (err, 1) returned, directly before the longjmp
-        i_h1 = eh.find("mudlib_error_handler (err, 1)")
-        i_cv = eh.find("catch_value.u.string = string_copy")
-        i_free = eh.find("free_svalue (&catch_value")
-        i_jmp = eh.find("longjmp (current_error_context->context, 1)")
+        mh1 = re.search(r"mudlib_error_handler\s*\(\w+,\s*1\)", eh)
+        i_h1 = mh1.start() if mh1 else -1
+        i_cv = pos(eh, "catch_value.u.string = string_copy")
+        i_free = pos(eh, "free_svalue (&catch_value")
+        i_jmp = pos(eh, "longjmp (current_error_context->context, 1)")
         out.append("/-- error_handler (caught error): the master's handler is applied first, then catch_value is freed and set to the "
                    "message, then the longjmp; nothing that can run LPC sits between the assignment and the longjmp -/\n"
                    "def errorHandlerSetsCatchValueAfterHandler : Bool := %s"
@@ -756,28 +882,28 @@ class C05(Prop):
         # (5d) … and the limit bits (ES_STACK_FULL / ES_MAX_EVAL_COST) of the error the handler runs for are recorded at both
         #      entries and re-instated in the same two guarded places, i.e. only when the handler is abandoned
         reinst = [c for c in guarded if re.match(r"in_mudlib_error_handler\s*=\s*0\s*;\s*set_error_state\s*\(handler_limit_state\)\s*;\s*\}", eh[c:])]
-        recorded = len(re.findall(r"handler_limit_state\s*=\s*limit_state\s*;\s*in_mudlib_error_handler\s*=\s*1\s*;", eh))
-        after = len(re.findall(r"mudlib_error_handler\s*\(err,\s*[01]\)\s*;\s*(?:in_error\s*=\s*1\s*;\s*)?in_mudlib_error_handler\s*=\s*0\s*;\s*set_error_state\s*\(limit_state\)", eh))
+        recorded = len(re.findall(r"handler_limit_state\s*=\s*\w+\s*;\s*in_mudlib_error_handler\s*=\s*1\s*;", eh))
+        after = len(re.findall(r"mudlib_error_handler\s*\(\w+,\s*[01]\)\s*;\s*(?:in_error\s*=\s*1\s*;\s*)?in_mudlib_error_handler\s*=\s*0\s*;\s*set_error_state\s*\(\w+\)", eh))
         out.append("/-- error_handler: the limit bits are recorded before both handler applies, set again after a handler that returned, and "
                    "re-instated for an error raised inside the handler only where the flag is cleared (handler abandoned) -/\n"
                    "def errorHandlerKeepsLimitState : Bool := %s" % ("true" if len(reinst) == 2 and recorded == 2 and after == 2 else "false"))
         # (6) backend(): one context for the whole loop; recovery = restore_context only; pop_context after the loop
         be = body("src/backend.c", "backend")
-        i_save, i_set, i_loop, i_pop = be.find("save_context (&econ)"), be.find("if (setjmp (econ.context))"), be.find("while (1)"), be.find("pop_context (&econ)")
-        rec = re.search(r"if\s*\(setjmp\s*\(econ\.context\)\)\s*restore_context\s*\(&econ\)\s*;", be)
+        i_save, i_set, i_loop, i_pop = pos(be, "save_context (&econ)"), pos(be, "if (setjmp (econ.context))"), pos(be, "while (1)"), pos(be, "pop_context (&econ)")
+        rec = re.search(r"if\s*\(setjmp\s*\(econ\.context\)\)\s*\{?\s*restore_context\s*\(&econ\)\s*;", be)
         out.append("/-- backend(): clear_state; save_context; `if (setjmp) restore_context;` before the loop; pop_context after it; "
                    "current_interactive cleared at the top of the loop -/\ndef backendRecoveryShape : Bool := %s"
-                   % ("true" if rec and 0 <= be.find("clear_state ()") < i_save < i_set < i_loop < i_pop and
+                   % ("true" if rec and 0 <= pos(be, "clear_state ()") < i_save < i_set < i_loop < i_pop and
                       re.search(r"while\s*\(1\)\s*\{\s*current_interactive\s*=\s*0\s*;", be) else "false"))
         sw = body("src/backend.c", "look_for_objects_to_swap")
-        rec2 = re.search(r"save_context\s*\(&econ\)\s*;\s*if\s*\(setjmp\s*\(econ\.context\)\)\s*restore_context\s*\(&econ\)\s*;", sw)
+        rec2 = re.search(r"save_context\s*\(&econ\)\s*;\s*if\s*\(setjmp\s*\(econ\.context\)\)\s*\{?\s*restore_context\s*\(&econ\)\s*;", sw)
         out.append("/-- look_for_objects_to_swap(): its own context around the whole sweep (reset / clean_up) -/\ndef sweepRecoveryShape : Bool := %s"
-                   % ("true" if rec2 and sw.find("pop_context (&econ)") > sw.find("APPLY_CLEAN_UP") > 0 else "false"))
+                   % ("true" if rec2 and pos(sw, "pop_context (&econ)") > pos(sw, "APPLY_CLEAN_UP") > 0 else "false"))
         chb = body("src/backend.c", "call_heart_beat")
-        i1, i2, i3 = chb.find("current_heart_beat = ob"), chb.find("command_giver = ob"), chb.find("call_function (ob->prog")
+        i1, i2, i3 = pos(chb, "current_heart_beat = ob"), pos(chb, "command_giver = ob"), pos(chb, "call_function (ob->prog")
         out.append("/-- call_heart_beat(): current_heart_beat and command_giver are set before call_function pushes the frame; cleared after -/\n"
                    "def heartBeatSetsRegistersBeforeFrame : Bool := %s"
-                   % ("true" if 0 <= i1 < i2 < i3 < chb.find("command_giver = 0", i3) < chb.find("current_heart_beat = 0", i3) else "false"))
+                   % ("true" if 0 <= i1 < i2 < i3 < pos(chb, "command_giver = 0", i3) < pos(chb, "current_heart_beat = 0", i3) else "false"))
         # (7) inventory: C functions that call back into LPC (a callback can longjmp past them) and whether they leave a
         #     T_ERROR_HANDLER slot on the value stack that releases / resets what their C locals and statics hold
         inv = []
@@ -817,7 +943,51 @@ class C05(Prop):
         out.append("/-- C functions that call back into LPC without a recovery point of their own (callback can longjmp past them): "
                    "(function, leaves a T_ERROR_HANDLER slot) -/\ndef callbackSites : List (String × Bool) := [%s]"
                    % ", ".join('("%s", %s)' % (n, "true" if h else "false") for n, h, _ in inv))
-        self.callback_inventory = {"sites": len(inv), "with_error_handler": [n for n, h, _ in inv if h],
+        # (8) every T_ERROR_HANDLER slot pushed on the value stack (run by the unwinding): (file, handler function)
+        slots = []
+        for root in ("src", "lib"):
+            for dp, dn, fn in os.walk(os.path.join(E.REPO, root)):
+                for f in sorted(fn):
+                    if f.endswith(".c"):
+                        t = re.sub(r"/\*.*?\*/", "", open(os.path.join(dp, f), errors="replace").read(), flags=re.S)
+                        for hm in re.finditer(r"->\s*u\.error_handler\s*=\s*(\w+)\s*;", t):
+                            slots.append((f, hm.group(1)))
+        slots = sorted(set(slots))
+        out.append("/-- every `…->u.error_handler = f;` of the source: (file, handler) -/\n"
+                   "def errorHandlerSlots : List (String × String) := %s" % pairs(slots))
+        # (8b) none of those handler functions calls back into LPC or raises an error (an error inside a handler that runs
+        #      while the stack is being unwound would re-enter the unwinding)
+        bad_handlers = []
+        for f, h in slots:
+            for root in ("src", "lib"):
+                for dp, dn, fn in os.walk(os.path.join(E.REPO, root)):
+                    if f in fn:
+                        try:
+                            hb = body(os.path.relpath(os.path.join(dp, f), E.REPO), h)
+                        except X.TieBroken:
+                            continue
+                        if prim.search(hb) or re.search(r"\berror\s*\(", hb):
+                            bad_handlers.append(h)
+        out.append("/-- handlers of T_ERROR_HANDLER slots that call back into LPC or raise an error -/\n"
+                   "def errorHandlersThatCallBack : List String := %s" % lst(sorted(set(bad_handlers))))
+        # (9) destruct_object of a vital object: slot pushed and both names recorded BEFORE the name is blanked; the handler
+        #     restores both names; the two by-hand back-outs restore the name and drop the slot before raising
+        dob = body("src/simulate.c", "destruct_object")
+        i_slot = pos(dob, "sp->u.error_handler = fix_object_names")
+        i_m = pos(dob, "saved_master_name = master_ob")
+        i_s = pos(dob, "saved_simul_name = simul_efun_ob")
+        i_blank = pos(dob, 'ob->name = ""')
+        i_load = pos(dob, "new_ob = load_object (tmp")
+        out.append("/-- destruct_object: the fix_object_names slot is pushed and both names are recorded before `ob->name = \"\"`, which comes "
+                   "before the reload -/\ndef destructRecordsNamesBeforeBlanking : Bool := %s"
+                   % ("true" if 0 <= i_slot < i_blank and 0 <= i_m < i_blank and 0 <= i_s < i_blank < i_load else "false"))
+        fon = body("src/simulate.c", "fix_object_names")
+        out.append("/-- fix_object_names puts both recorded names back -/\ndef fixObjectNamesRestoresBoth : Bool := %s"
+                   % ("true" if re.search(r"master_ob->name\s*=\s*saved_master_name\s*;", fon) and
+                      re.search(r"simul_efun_ob->name\s*=\s*saved_simul_name\s*;", fon) else "false"))
+        out.append("/-- destruct_object: back-outs by hand (`ob->name = tmp; sp--; error (…)`) -/\ndef destructManualBackouts : Nat := %d"
+                   % len(re.findall(r"ob->name\s*=\s*tmp\s*;\s*sp--\s*;\s*error\s*\(", dob)))
+        self.callback_inventory = {"sites": len(inv), "error_handler_slots": ["%s:%s" % x for x in slots], "with_error_handler": [n for n, h, _ in inv if h],
                                    "by_file": {r: sum(1 for _, _, rr in inv if rr == r) for r in sorted(set(r for _, _, r in inv))}}
         return out
 
@@ -827,6 +997,10 @@ class C05(Prop):
         self.conf = E.make_mudlib(ctx.rundir, master="/c05/master.c")
 
     def run_impl(self, ctx, cases):
+        # a case that broke the master FILE on purpose and then crashed (changed driver) must not poison the next harness start
+        good = os.path.join(ctx.rundir, "mudlib/c05/master.good")
+        if os.path.exists(good):
+            os.replace(good, os.path.join(ctx.rundir, "mudlib/c05/master.c"))
         return E.run_harness(self.exe, self.conf, cases, ctx.rundir)
 
     def shrink_ok(self, lines):
@@ -928,10 +1102,10 @@ class C05(Prop):
                      ("deep", "f2 ();", "(call local t 0 0 (call other t 0 0 (call fplocal t 0 0 (raise boom4))))", "")]
         be_fns = ['void f1 () { error ("boom2\\n"); }', 'void f4 () { error ("boom4\\n"); }', "void f3 () { evaluate ((: f4 :)); }",
                   "void f2 () { this_object ()->f3 (); }"]
-        for kind in ("cmd", "hb", "reset", "cleanup"):
+        for kind in ("cmd", "hb", "hbc", "reset", "cleanup"):
             for name, stmt, bops, vn in be_bodies:
                 B.append(fixed_case("b-backend-%s-%s" % (kind, name), stmt, BE_OPS[kind] % bops, fns=be_fns, prep=BE_PREP[kind],
-                                    vname=vn, inject="injectbe " + kind, extra_head=["setcg 0"]))
+                                    vname=vn, inject="injectbe " + BE_INJECT[kind], extra_head=["setcg 0"]))
         # the command_giver save stack (simulate.c): notify_no_command() calls the notify_fail() function with
         # command_giver pushed; an error in that function must not leave the stack one deeper
         for name, stmt, bops in (("say", 'VL ("say x");', "(say x)"), ("raise", 'error ("boom1\\n");', "(raise boom1)"),
@@ -943,6 +1117,55 @@ class C05(Prop):
                                     (CATCHSTMT % '"/c05/user"->failcmd ()') if outer else call,
                                     ("(catch %s) (saycatch)" % o) if outer else o,
                                     fns=["void nfbody () { %s }" % stmt]))
+        # the T_ERROR_HANDLER slot of destruct_object(): destruct of the master / the simul_efun object whose reload fails -
+        # refused (caller without euid), error / throw in create() of the new copy, fault at every instruction of it
+        vobj = '#include "/include/vcommon.h"\nvoid go () { destruct (%s); }\n'
+        for which, expr in (("master", "master ()"), ("simul", 'find_object ("/simul_efun")')):
+            for outer in (False, True):
+                call = '"/c05/gen/VN"->go ();'
+                o = ("(call other t 0 0 (tmp 1 (vital master (craise *Can't load objects when no effective user.))))" if which == "master"
+                     else "(call other t 0 0 (tmp 1 (craise *Cannot destruct simul_efun_object while master_object exists.)))")
+                B.append(fixed_case("b-vital-%s-noeuid%s" % (which, "-caught" if outer else ""),
+                                    (CATCHSTMT % '"/c05/gen/VN"->go ()') if outer else call,
+                                    ("(catch %s) (saycatch)" % o) if outer else o,
+                                    prep='if (p0 = find_object ("/c05/gen/VN")) destruct (p0); load_object ("/c05/gen/VN");',
+                                    extra_files={"VN": vobj % expr}))
+        # … and the master FILE does not compile any more (the compiler's log_error safe apply runs in the old master, whose
+        # name is blank at that moment); prep() of the next evaluation puts the good file back
+        fix_file = ('if (file_size ("/c05/master.good") > 0) { rm ("/c05/master.c"); rename ("/c05/master.good", "/c05/master.c"); }')
+        brk = ('rename ("/c05/master.c", "/c05/master.good"); write_file ("/c05/master.c", "void create () { int x = ; }\\n"); ')
+        for outer in (False, True):
+            o = "(tmp 1 (vital master (load (safe 2 0 (say compile-error)) (craise *Error in loading object '/c05/master':))))"
+            # (rename / write_file ask the master's valid_write: applies made by efuns, LPC instructions of the master run)
+            pre = "(tmp 2 (cb other master 3 3)) (tmp 2 (cb other master 3 3)) "
+            B.append(fixed_case("b-vital-master-compile-error%s" % ("-caught" if outer else ""),
+                                brk + ((CATCHSTMT % "destruct (master ())") if outer else "destruct (master ());"),
+                                pre + (("(catch %s) (saycatch)" % o) if outer else o), prep=fix_file,
+                                # (the scratch mudlib is shared by the cases of a run: put the good file back at the end)
+                                tail=["vapply t prep"]))
+        for name, stmt, bops in (("say", 'VL ("say x");', "(say x)"), ("raise", 'error ("boom1\\n");', "(raise boom1)"),
+                                 ("throw", 'throw ("t1");', "(throw t1)"),
+                                 ("caught-inside", CATCHSTMT % "f1 ()", "(catch (call local t 0 0 (raise boom2))) (saycatch)")):
+            for outer in (False, True):
+                call = "mflag = 1; destruct (master ());"
+                o = "(tmp 1 (vital master (load (call other master 0 0 (call other t 0 0 %s))) (call other master 0 0)))" % bops
+                B.append(fixed_case("b-vital-master-create-%s%s" % (name, "-caught" if outer else ""),
+                                    ("mflag = 1; " + CATCHSTMT % "destruct (master ())") if outer else call,
+                                    ("(catch %s) (saycatch)" % o) if outer else o,
+                                    fns=['void f1 () { error ("boom2\\n"); }',
+                                         "void mcreate () { %s if (mflag) { mflag = 0; %s } }" % (DECL, stmt)]))
+        # boundary sizes of the unwinding: 255 / 256 / 300 / 70000 values between the recovery point and the error (an array
+        # literal pushes all its elements before it aggregates them)
+        for n in (255, 256, 300, 70000):
+            if n > 1000:
+                continue      # (the value stack of the default configuration holds fewer: kept for a larger EvaluatorStackSize)
+            lit = "({ " + "1, " * n + "f1 () })"
+            for outer in (False, True):
+                o = "(tmp %d (call local t 0 0 (raise boom1)))" % n
+                B.append(fixed_case("b-unwind-%d%s" % (n, "-caught" if outer else ""),
+                                    (CATCHSTMT % lit) if outer else ("a = %s;" % lit),
+                                    ("(catch %s) (saycatch)" % o) if outer else o,
+                                    fns=['int f1 () { error ("boom1\\n"); return 1; }']))
         # last_verb (query_verb()): an error in a verb function must not leave it set after the command
         for name, stmt, bops in (("say", 'VL ("say x");', "(say x)"), ("raise", 'error ("boom1\\n");', "(raise boom1)"),
                                  ("throw", 'throw ("t1");', "(throw t1)")):
@@ -970,7 +1193,7 @@ class C05(Prop):
         for script in (1, 2, 4, 8, 16, 5, 7, 21, 31):
             for name, stmt, hops in hshapes:
                 B.append(fixed_case("b-handler-script-%d-%s" % (script, name), stmt, hops, fns=hfns,
-                                    prep='"/c05/master"->set_hscript (%d);' % script, inject="run t run"))
+                                    prep='master ()->set_hscript (%d);' % script, inject="run t run"))
         # a register changed between save_context and the first frame push is not restored (model predicts it)
         B.append(fixed_case("b-setreg-co", "f1 ();", "(call local t 0 0 (say x))", fns=['void f1 () { VL ("say x"); }'],
                             inject="inject t run co probe"))
@@ -985,7 +1208,7 @@ class C05(Prop):
 
     # ---- oracle self-test: the string judge must reject hand-made bad traces (one per clause) ----
     def extra_checks(self, ctx, tier, rng):
-        snap = "sp=-1 csp=-1 cg=u1 co=0 po=0 prog=0 ct=0 fp=-1 pc=null fio=0 vio=0 ctx=0 ld=0 rd=0 cgs=0 qv=0"
+        snap = "sp=-1 csp=-1 cg=u1 co=0 po=0 prog=0 ct=0 fp=-1 pc=null fio=0 vio=0 ctx=0 ld=0 rd=0 cgs=0 qv=0 mn=ok sn=ok"
         probe = "caught *probe-err ; probe tp=u1 po=0 d=0 l=0 a=3,4 e=*probe-err  co=42 side in=0 hb=0"
         head = ["base " + snap, "probe0 " + probe]
         hb1 = probe.replace("hb=0", "hb=1")     # a heart-beat case: the heart beat of t is on before every evaluation
@@ -1004,6 +1227,8 @@ class C05(Prop):
             ("rd", [out(["catch t1", "done 1"], snap.replace("rd=0", "rd=other"))], "restore fault rd"),
             ("cgs", [out(["err *x", "fault-top"], snap.replace("cgs=0", "cgs=1"))], "restore fault cgs"),
             ("qv", [out(["err *x", "fault-top"], snap.replace("qv=0", "qv=set"))], "restore fault qv"),
+            ("mn", [out(["caught *x", "catch *x", "done 1"], snap.replace("mn=ok", "mn=blank"))], "restore fault mn"),
+            ("sn", [out(["err *x", "fault-top"], snap.replace("sn=ok", "sn=blank"))], "restore fault sn"),
             ("probe", [out(["done 1"], pr=probe.replace("a=3,4", "a=3"))], "probe fault differs"),
             ("probe-destruct", [out(["done 1"], pr=probe.replace("d=0", "d=*Only this_object() can be destructed"))], "probe fault differs"),
             ("half-install", [out(["caught nf", "catch nf", "done 1"], pr=probe.replace("in=0", "in=1"))], "half-install"),
